@@ -41,3 +41,16 @@ CHECKS = {
         ],
     },
 }
+
+BOUNDED = ("holds for every input inside the stated bounds (the solver decides each data-dependent branch and assertion for all values; "
+           "paths are enumerated exhaustively by decision-prefix re-execution); says nothing beyond the bounds")
+
+META = {
+    "C01": dict(text="Totality of ParseCommands within bounds: every feasible path of the real lexer/parser SSA over N free runes (N<=3 quick, 4 thorough), "
+                     "over every template with symbolic holes, with symbolic alias tables, under panicnil 0 and 1, ends without caller panic, background-goroutine death, deadlock or budget overrun. " + BOUNDED,
+                note="inputs longer than the bounds, code points outside D and the std decoders behind string/[]byte/io.Reader sources (smoke-tested concretely) are outside the claim; goroutines run under the deterministic baton schedule plus a drain phase after return"),
+}
+
+NOT_APPLICABLE = {
+    "C%02d" % i: "check not built yet in this session (engine reaches the code; harness pending)" for i in range(1, 21)
+}
